@@ -30,7 +30,8 @@ func InitSequence(envs commservices.Environments) (reader io.Reader, err error) 
 		eofTag = varutil.HeredocTag(values...)
 	}
 	for key, value := range envs.All() {
-		initCode += key + "=$(cat <<'" + eofTag + "'\n" + value + "\n" + eofTag + "\n)\n"
+		// "command -p" looks cat up in the default path: one of the variables may be PATH itself
+		initCode += key + "=$(command -p cat <<'" + eofTag + "'\n" + value + "\n" + eofTag + "\n)\n"
 		initCode += "export " + key + "\n"
 	}
 	sshCert := envs.SSHCert()
